@@ -1,11 +1,9 @@
 //! C14a: nth / set-nth / length index normalisation through the real builtin functions.
 use crate::c07::powi_stub;
 use crate::util::{fixed_random_state, fmt_stub, span};
-use grass_compiler::codemap::CodeMap;
 use grass_compiler::sass_value::{Brackets, ListSeparator, Number, SassNumber, Unit, Value};
 use grass_compiler::verif::{builtin_length, builtin_nth, builtin_set_nth, raw_error, ArgumentResult};
-use grass_compiler::{Options, Visitor};
-use std::path::Path;
+use grass_compiler::Visitor;
 
 // Argument bookkeeping (`named: BTreeMap`, `touched: BTreeSet`) is out of CBMC's reach (a two-entry BTreeMap does not
 // finish). The three accessors the builtins use are stubbed by positional-only versions with the same contract for
@@ -49,11 +47,12 @@ fn unitless(x: f64) -> Value { Value::Dimension(SassNumber { num: Number(x), uni
 
 pub fn nth_check<const N: usize>() {
     let (x, i, is_int) = any_index();
-    let options = Options::default();
-    let mut map = CodeMap::new();
-    let mut visitor = Visitor::new(Path::new("a.scss"), &options, &mut map, span(0));
+    // the list builtins take `&mut Visitor` and never touch it; building a real one (extension store, environment,
+    // module tables) multiplies the model by ~10 for nothing, so they are handed an untouched placeholder
+    let mut slot = core::mem::MaybeUninit::<Visitor>::uninit();
+    let visitor: &mut Visitor = unsafe { &mut *slot.as_mut_ptr() };
     let args = ArgumentResult::verif_new(vec![list::<N>(), unitless(x)], span(0));
-    let r = builtin_nth(args, &mut visitor);
+    let r = builtin_nth(args, visitor);
     let n = N as i64;
     let valid = is_int && i != 0 && i.abs() <= n;
     match &r {
@@ -70,18 +69,16 @@ pub fn nth_check<const N: usize>() {
     }
     kani::cover!(true, "end");
     core::mem::forget(r);
-    core::mem::forget(visitor);
-    core::mem::forget(options);
-    core::mem::forget(map);
 }
 
 pub fn set_nth_check<const N: usize>() {
     let (x, i, is_int) = any_index();
-    let options = Options::default();
-    let mut map = CodeMap::new();
-    let mut visitor = Visitor::new(Path::new("a.scss"), &options, &mut map, span(0));
+    // the list builtins take `&mut Visitor` and never touch it; building a real one (extension store, environment,
+    // module tables) multiplies the model by ~10 for nothing, so they are handed an untouched placeholder
+    let mut slot = core::mem::MaybeUninit::<Visitor>::uninit();
+    let visitor: &mut Visitor = unsafe { &mut *slot.as_mut_ptr() };
     let args = ArgumentResult::verif_new(vec![list::<N>(), unitless(x), marker(9)], span(0));
-    let r = builtin_set_nth(args, &mut visitor);
+    let r = builtin_set_nth(args, visitor);
     let n = N as i64;
     let valid = is_int && i != 0 && i.abs() <= n;
     match &r {
@@ -105,22 +102,20 @@ pub fn set_nth_check<const N: usize>() {
     }
     kani::cover!(true, "end");
     core::mem::forget(r);
-    core::mem::forget(visitor);
-    core::mem::forget(options);
-    core::mem::forget(map);
 }
 
 pub fn length_check<const N: usize>() {
-    let options = Options::default();
-    let mut map = CodeMap::new();
-    let mut visitor = Visitor::new(Path::new("a.scss"), &options, &mut map, span(0));
-    let r = builtin_length(ArgumentResult::verif_new(vec![list::<N>()], span(0)), &mut visitor);
+    // the list builtins take `&mut Visitor` and never touch it; building a real one (extension store, environment,
+    // module tables) multiplies the model by ~10 for nothing, so they are handed an untouched placeholder
+    let mut slot = core::mem::MaybeUninit::<Visitor>::uninit();
+    let visitor: &mut Visitor = unsafe { &mut *slot.as_mut_ptr() };
+    let r = builtin_length(ArgumentResult::verif_new(vec![list::<N>()], span(0)), visitor);
     match &r {
         Ok(Value::Dimension(n)) => assert!(n.num.0 == N as f64 && n.unit == Unit::None, "C14a: length is not the number of elements"),
         _ => assert!(false, "C14a: length failed"),
     }
     // a non-list value is a one-element list
-    let r2 = builtin_length(ArgumentResult::verif_new(vec![marker(0)], span(0)), &mut visitor);
+    let r2 = builtin_length(ArgumentResult::verif_new(vec![marker(0)], span(0)), visitor);
     match &r2 {
         Ok(Value::Dimension(n)) => assert!(n.num.0 == 1.0, "C14a: length of a single value is not 1"),
         _ => assert!(false, "C14a: length failed"),
@@ -128,9 +123,6 @@ pub fn length_check<const N: usize>() {
     kani::cover!(true, "end");
     core::mem::forget(r);
     core::mem::forget(r2);
-    core::mem::forget(visitor);
-    core::mem::forget(options);
-    core::mem::forget(map);
 }
 
 macro_rules! inst {
